@@ -286,9 +286,26 @@ class CallsMixin:
         v = args[0]
         if isinstance(v, V) and isinstance(v.kind, K.Set):
             return v
+        if isinstance(v, V) and isinstance(v.kind, K.Map):
+            return V(K.Set(v.kind.key), [v.terms[0], v.terms[3]])      # the key set: size = len(dict), membership = dom
+        if isinstance(v, PyObj) and v.tag == 'emptydict':
+            return PyObj('emptyset')
         if isinstance(v, PyObj) and v.tag == 'genexp':
             return self.subset_comprehension(v.node)
         raise Unsupported('set(x)')
+
+    def b_dict_eq(self, args, kwargs, node):
+        """dict.__eq__(a, b): same keys, equal values (order-insensitive)."""
+        a, b = args
+        if isinstance(a, PyObj) or isinstance(b, PyObj):
+            raise Unsupported('dict.__eq__ on %r, %r' % (a, b))
+        if not (isinstance(a.kind, K.Map) and a.kind == b.kind):
+            raise Unsupported('dict.__eq__ on %r, %r' % (a.kind, b.kind))
+        kx = self.p.fresh('deq!k', a.kind.key.leaf_sorts()[0])
+        kv = V(a.kind.key, [kx])
+        return K.vbool(z3.ForAll([kx], z3.And(
+            z3.Select(a.terms[3], kx) == z3.Select(b.terms[3], kx),
+            z3.Implies(z3.Select(a.terms[3], kx), self.eq(K.map_get(a, kv), K.map_get(b, kv))))))
 
     def subset_comprehension(self, ge):
         """set(x for x in S if pred(x)) over a set S: the subset of S satisfying pred."""
@@ -308,14 +325,11 @@ class CallsMixin:
         finally:
             self.spec = saved_spec
             self.env = saved_env
-        arr = z3.BoolVal(True)
-        body = z3.And(K.nsel(src.terms[1], xs.terms), pred)
-        for b in reversed(xs.terms):
-            body = z3.Lambda([b], body)
-        size = self.p.fresh('sub!size', z3.IntSort())
-        self.p.assume(z3.And(0 <= size, size <= src.terms[0]))
-        out = V(src.kind, [size, body])
+        out = self.p.fresh_value(src.kind, 'subset')
         self.assume_valid(out)
+        self.p.assume(K.forall(xs.terms, K.nsel(out.terms[1], xs.terms) == z3.And(K.nsel(src.terms[1], xs.terms), pred),
+                               patterns=[K.nsel(out.terms[1], xs.terms), K.nsel(src.terms[1], xs.terms)]))
+        self.p.assume(out.terms[0] <= src.terms[0])
         return out
 
     def b_dict(self, args, kwargs, node):
@@ -423,6 +437,8 @@ class CallsMixin:
                 self.spec = saved_spec
             order = (ki >= kj) if z3.is_true(revc) else (ki <= kj)
             self.p.assume(z3.ForAll([i, j], z3.Implies(z3.And(0 <= i, i < j, j < n), order)))
+        elif isinstance(out.kind.elem, K._Str):
+            pass        # string order is not modelled: sorted(list of str) is some permutation of the input
         elif out.kind.elem.nleaves() == 1 and isinstance(out.kind.elem, K._Int):
             i, j = self.p.fresh('srt!i', z3.IntSort()), self.p.fresh('srt!j', z3.IntSort())
             a = out.terms[1]
@@ -440,11 +456,29 @@ class CallsMixin:
                   self.p.fresh('perm!q', z3.ArraySort(z3.IntSort(), z3.IntSort())))
         i = self.p.fresh('perm!i', z3.IntSort())
         self.p.assume(K.seq_len(out) == n)
-        self.p.assume(K.forall([i], z3.Implies(z3.And(0 <= i, i < n), z3.And(
-            0 <= z3.Select(p_, i), z3.Select(p_, i) < n, z3.Select(q_, z3.Select(p_, i)) == i,
-            0 <= z3.Select(q_, i), z3.Select(q_, i) < n, z3.Select(p_, z3.Select(q_, i)) == i,
-            *[z3.Select(o, i) == z3.Select(a, z3.Select(p_, i)) for o, a in zip(out.terms[1:], src.terms[1:])])),
-            patterns=[z3.Select(p_, i), z3.Select(q_, i), z3.Select(out.terms[1], i), z3.Select(src.terms[1], i)]))
+
+        def body_out(i):       # every output cell comes from a source cell
+            return z3.Implies(z3.And(0 <= i, i < n), z3.And(
+                0 <= z3.Select(p_, i), z3.Select(p_, i) < n, z3.Select(q_, z3.Select(p_, i)) == i,
+                *[z3.Select(o, i) == z3.Select(a, z3.Select(p_, i)) for o, a in zip(out.terms[1:], src.terms[1:])]))
+
+        def body_src(k):       # every source cell goes to an output cell
+            return z3.Implies(z3.And(0 <= k, k < n), z3.And(
+                0 <= z3.Select(q_, k), z3.Select(q_, k) < n, z3.Select(p_, z3.Select(q_, k)) == k,
+                *[z3.Select(o, z3.Select(q_, k)) == z3.Select(a, k) for o, a in zip(out.terms[1:], src.terms[1:])]))
+        base_arr = src.terms[1]
+        while z3.is_app(base_arr) and base_arr.decl().kind() == z3.Z3_OP_STORE:
+            base_arr = base_arr.arg(0)
+        self.p.assume(K.forall([i], body_out(i), patterns=[z3.Select(out.terms[1], i)]))
+        self.p.assume(K.forall([i], body_src(i), patterns=[z3.Select(src.terms[1], i), z3.Select(base_arr, i)]))
+        # cells written by append() are not visible to e-matching (they sit inside store terms): instantiate there
+        arr = src.terms[1]
+        for _ in range(16):
+            if z3.is_app(arr) and arr.decl().kind() == z3.Z3_OP_STORE:
+                self.p.assume(body_src(arr.arg(1)))
+                arr = arr.arg(0)
+            else:
+                break
         self.p.seq_pos[out.terms[1].get_id()] = ('perm', p_, q_)
         return out
 
